@@ -72,6 +72,10 @@ def _returns_outside_guards(body):
             elif isinstance(st, ast.If):
                 if scan(st.body, True) or scan(st.orelse, True):
                     return True
+            elif isinstance(st, ast.Try) and not st.finalbody:
+                # block-final returns in the body / handlers / else of a try are rewritten structurally (see _rewrite_returns)
+                if scan(st.body, True) or scan(st.orelse, True) or any(scan(h.body, True) for h in st.handlers):
+                    return True
             elif isinstance(st, (ast.For, ast.While, ast.Try, ast.With, ast.AsyncFor, ast.AsyncWith)):
                 for sub in ast.walk(st):
                     if isinstance(sub, ast.Return):
@@ -88,6 +92,8 @@ def _ends_with_return(stmts):
         return True
     if isinstance(last, ast.If):
         return _ends_with_return(last.body) and _ends_with_return(last.orelse)
+    if isinstance(last, ast.Try) and not last.finalbody:
+        return (_ends_with_return(last.body) or _ends_with_return(last.orelse)) and all(_ends_with_return(h.body) for h in last.handlers)
     return False
 
 
@@ -116,8 +122,49 @@ def _rewrite_returns(stmts, make):
             orelse = _rewrite_returns(st.orelse, make)
             out.append(ast.copy_location(ast.If(test=st.test, body=body or [ast.Pass()], orelse=orelse), st))
             continue
+        if isinstance(st, ast.Try) and not st.finalbody and any(isinstance(x, ast.Return) for x in ast.walk(st)):
+            # `try: A  except E: return X` + rest   ->   `try: A  except E: <X>  else: rest`   (the else clause of a try is
+            # not protected by its handlers, exactly like the statements that followed it; handlers that fall through get
+            # their own copy of the rest)
+            body_ret = _ends_with_return(st.body)
+            new_body = _rewrite_returns(st.body, make)
+            if body_ret:
+                new_else = []
+            else:
+                new_else = _rewrite_returns(list(st.orelse) + [copy.deepcopy(r) for r in rest], make)
+            handlers = []
+            for h in st.handlers:
+                if _ends_with_return(h.body):
+                    hb = _rewrite_returns(h.body, make)
+                else:
+                    hb = _rewrite_returns(list(h.body) + [copy.deepcopy(r) for r in rest], make)
+                handlers.append(ast.copy_location(ast.ExceptHandler(type=h.type, name=h.name, body=hb or [ast.Pass()]), h))
+            out.append(ast.copy_location(ast.Try(body=new_body or [ast.Pass()], handlers=handlers, orelse=new_else, finalbody=[]), st))
+            return out
         out.append(st)
     return out
+
+
+def _in_deferred_context(st, call):
+    """Is ``call`` evaluated zero or several times per execution of ``st`` (inside a comprehension, generator, lambda, the
+    right operand of and/or, or an arm of a conditional expression)?"""
+    found = [False]
+
+    def walk(n, deferred):
+        if n is call:
+            found[0] = deferred
+            return True
+        if isinstance(n, (ast.ListComp, ast.SetComp, ast.DictComp, ast.GeneratorExp, ast.Lambda)):
+            return any(walk(c, True) for c in ast.iter_child_nodes(n))
+        if isinstance(n, ast.IfExp):
+            return walk(n.test, deferred) or walk(n.body, True) or walk(n.orelse, True)
+        if isinstance(n, ast.BoolOp):
+            return walk(n.values[0], deferred) or any(walk(v, True) for v in n.values[1:])
+        if isinstance(n, (ast.stmt,)) and n is not st:
+            return False
+        return any(walk(c, deferred) for c in ast.iter_child_nodes(n))
+    walk(st, False)
+    return found[0]
 
 
 class Inliner(object):
@@ -207,13 +254,24 @@ class Inliner(object):
         return None
 
     def inline_stmt(self, func, st, local_defs, depth):
-        """Statements replacing ``st`` (one helper call inlined), or None if nothing was done."""
+        """Statements replacing ``st`` (one helper call inlined), or None if nothing was done.  Every successful inlining is
+        counted per helper (``index.inlined_calls``), so that a helper whose every call was inlined is not analysed a second
+        time on its own (see ``Index.helper_status``)."""
+        self._last = None
+        rep = self._inline_stmt(func, st, local_defs, depth)
+        if rep is not None and self._last is not None:
+            cnt = self.index.inlined_calls
+            cnt[id(self._last)] = cnt.get(id(self._last), 0) + 1
+        return rep
+
+    def _inline_stmt(self, func, st, local_defs, depth):
         own = self._own_exprs(st)
         calls = [c for e in own for c in ast.walk(e) if isinstance(c, ast.Call) and self.helper_for(func, c, local_defs)]
         if not calls:
             return None
         call = calls[0]
         kind, hnode, recv = self.helper_for(func, call, local_defs)
+        self._last = hnode
         if _has_yield(hnode) or any(isinstance(d, ast.Name) and d.id not in ('staticmethod', 'classmethod') or
                                     not isinstance(d, ast.Name) for d in hnode.decorator_list):
             return None
@@ -228,6 +286,10 @@ class Inliner(object):
         if ebody is not None and not prelude:
             new_e = _Subst(mapping).visit(copy.deepcopy(ebody))
             return [self._replace(st, call, new_e)]
+        # a call inside a comprehension / lambda / conditional expression is evaluated per element (or not at all): only an
+        # expression body can be substituted in place there, statements cannot be hoisted in front of the statement
+        if _in_deferred_context(st, call):
+            return None
         body = [copy.deepcopy(s) for s in _strip_doc(hnode.body)]
         body = [_Subst(mapping).visit(s) for s in body]
         if _returns_outside_guards(body):
@@ -250,6 +312,24 @@ class Inliner(object):
             if not _ends_with_return(body):
                 new = new + make(None)
             return prelude + new
+        # `if helper(...): S else: T` (or `if not helper(...)`): S / T are moved to the helper's return sites, so that which of
+        # them runs stays tied to the path taken through the helper (a temporary flag would lose that for path rules)
+        if isinstance(st, ast.If):
+            neg = isinstance(st.test, ast.UnaryOp) and isinstance(st.test.op, ast.Not) and st.test.operand is call
+            if st.test is call or neg:
+                yes, no = (st.orelse, st.body) if neg else (st.body, st.orelse)
+
+                def make(v, yes=yes, no=no):
+                    if v is None or (isinstance(v, ast.Constant) and not v.value):
+                        return [copy.deepcopy(x) for x in no]
+                    if isinstance(v, ast.Constant) and v.value:
+                        return [copy.deepcopy(x) for x in yes]
+                    return [ast.copy_location(ast.If(test=v, body=[copy.deepcopy(x) for x in yes] or [ast.Pass()],
+                                                     orelse=[copy.deepcopy(x) for x in no]), st)]
+                new = _rewrite_returns(body, make)
+                if not _ends_with_return(body):
+                    new = new + make(None)
+                return prelude + (new or [ast.copy_location(ast.Pass(), st)])
         # embedded call: hoist into a temporary (only for simple statements, whose sub-expressions are evaluated once, in order)
         if isinstance(st, (ast.Assign, ast.AugAssign, ast.Expr, ast.Return, ast.If, ast.Assert)):
             tmp = '_inl_%s_%d' % (hnode.name.strip('_'), getattr(call, 'lineno', 0))
